@@ -450,6 +450,22 @@ func (fx *FnExec) loopEnter(st *State, fr *frame, h *loopHdr, b, pred *ssa.Basic
 			}
 		}
 		st.loopIters[lname] = &nit
+		// automatic invariant: only keys of the map are ever visited - valid as
+		// long as the loop does not change the key set of a map of this type
+		if !it.isStr {
+			inName := mapInName(it.ks, it.vs)
+			mi, modified := mods[inName]
+			if !modified || mi.pointee {
+				inH := st.heapGet(inName, "(Array Int (Array "+it.ks+" Bool))")
+				sub := "(forall ((q.k " + it.ks + ")) (! (=> (select " + nv + " q.k) (and (not (= " + it.mapTerm + " 0)) (select (select " + inH + " " + it.mapTerm + ") q.k))) :pattern ((select " + nv + " q.k))))"
+				if modified {
+					// changed only through pointers of unknown type, which reach
+					// pre-existing objects only: holds for a map this function made
+					sub = "(=> (or (> " + it.mapTerm + " " + fx.entryAlloc + ") (= " + it.mapTerm + " 0)) " + sub + ")"
+				}
+				st.assume(sub)
+			}
+		}
 	}
 	// assume invariants
 	if spec != nil {
@@ -874,7 +890,8 @@ func (ms *modScan) scanInstr(fn *ssa.Function, ins ssa.Instruction, top bool) {
 		}
 	case *ssa.Convert:
 		if fx.sortOf(x.X.Type()) == "Str" && fx.sortOf(x.Type()) == "Slice" {
-			ms.add("Mem.Int", "(Array Int (Array Int Int))", true)
+			bmn, bms := ms.fx.byteMem()
+			ms.add(bmn, bms, true)
 		}
 	case *ssa.Call:
 		ms.scanCall(fn, x.Common(), x)
